@@ -365,6 +365,40 @@ pub fn check_estimate(c: &EstCase) -> Check {
         let delta = (g - lower).num_milliseconds() as f64;
         ensure!(delta >= lo_ms, "estimate:wall-clock-base", "estimate only {} ms after the call started; expected >= {}", delta, lo_ms);
     }
+
+    // metamorphic relation: the estimate is the upload time *plus the mean of the recorded durations*, adjusted by the
+    // attempt count only. Shifting every recorded duration of the queried key by the same amount, inside the domain
+    // 0..=60 s, therefore shifts the estimate by exactly that amount (the window's attempt counts are unchanged) --
+    // whatever the adjustment formula is. This pins the dependence on the durations at the top of their range, where
+    // mean + adjustment exceeds 60 s.
+    if let (Some(_), Some(q)) = (base, hist) {
+        if !q.is_empty() {
+            let max = q.iter().map(|x| x.0).max().unwrap_or(0);
+            let min = q.iter().map(|x| x.0).min().unwrap_or(0);
+            for shift in [60_000 - max, -min] {
+                if shift == 0 {
+                    continue;
+                }
+                let mut shifted = ChunkTimingStats::new();
+                for ((t, w2, ch2), qq) in &model {
+                    let k = ChunkCharacteristics { chunk_type: chunk_type_of(*t), waveform_type: waveform_of(*w2), channel_configuration: channel_of(*ch2) };
+                    for (d, a) in qq.iter() {
+                        let d2 = if (*t, *w2, *ch2) == key { d + shift } else { *d };
+                        no_panic("add_timing", || shifted.add_timing(k, Duration::milliseconds(d2), *a))?;
+                    }
+                }
+                let again = no_panic("estimate_next_chunk_time", || estimate_next_chunk_time(&prev, &msg, Some(&shifted)))?;
+                let g2 = again.ok_or_else(|| Fail::new("estimate:unexpected-none", "estimate over shifted durations is None".to_string()))?;
+                let diff = (g2 - g).num_milliseconds();
+                ensure!(
+                    (diff - shift).abs() <= 1,
+                    "estimate:not-additive-in-duration",
+                    "shifting all {} recorded durations of the queried key by {} ms (window {}..={} ms, attempts {:?}) moves the estimate by {} ms",
+                    q.len(), shift, min, max, q.iter().map(|x| x.1).collect::<Vec<_>>(), diff
+                );
+            }
+        }
+    }
     Ok(())
 }
 
@@ -419,7 +453,7 @@ fn est_strategy() -> impl Strategy<Value = EstCase> {
             3 => vec(hist.clone(), 0..=8),
             3 => vec(hist.clone(), 9..=50),
             // windows made of one repeated duration (incl. all-zero windows) under the queried key
-            1 => (vec(hist, 1..=14), prop_oneof![2 => Just(0u32), 1 => 0u32..=60_000]).prop_map(|(mut v, d)| {
+            1 => (vec(hist, 1..=14), prop_oneof![2 => Just(0u32), 1 => 0u32..=60_000, 1 => Just(60_000u32), 1 => 55_000u32..=60_000]).prop_map(|(mut v, d)| {
                 for h in v.iter_mut() {
                     h.same_key = true;
                     h.duration_ms = d;
@@ -499,12 +533,23 @@ pub fn run(ctx: &Ctx, rep: &mut Report) {
                 .class(num == Some(55), "after-end-chunk")
                 .class(c.history.iter().any(|h| h.attempts > 1), "retries-in-history")
                 .class(!c.history.is_empty() && c.history.iter().all(|h| h.duration_ms == 0), "all-zero-durations")
+                .class(
+                    {
+                        let w: Vec<&HistEntry> = c.history.iter().filter(|h| h.same_key).collect();
+                        let tail = &w[w.len().saturating_sub(10)..];
+                        !tail.is_empty()
+                            && tail.iter().map(|h| h.attempts as usize).sum::<usize>() >= 2 * tail.len()
+                            && tail.iter().map(|h| h.duration_ms as usize).sum::<usize>() >= 59_500 * tail.len()
+                    },
+                    "retried-window-at-top-of-range",
+                )
         },
         check_estimate,
     );
     rep.require_class("estimate", "window-overflows", 50);
     rep.require_class("estimate", "after-end-chunk", 50);
     rep.require_class("estimate", "all-zero-durations", 50);
+    rep.require_class("estimate", "retried-window-at-top-of-range", 50);
 }
 
 pub fn replay(sub: &str, case: &Value) -> Check {
